@@ -234,3 +234,26 @@ def sum_is(value, ps, idx, scale=1.0):
     if other is ps:
         return and_(oj == ps.n, *[a == b for a, b in zip(oidx, idx)])
     return S.All(oj == ps.n, S.Forall((ps.n,), lambda t: other.term(*oidx, t) == ps.term(*idx, t)))
+
+
+def apply_sum_congruence(name, A, B, dims, idxA=None, idxB=None):
+    """Proof rule: if A and B have the same length and point-wise equal terms at the related
+    indices, their totals are equal.  Emits the point-wise obligation; only when it is discharged
+    the equality of the totals is assumed (as a universal fact over `dims`)."""
+    from . import spec as S
+    from .core import and_
+
+    c = ctx()
+    idxA = idxA or (lambda *ix: ix)
+    idxB = idxB or (lambda *ix: ix)
+    if c.concrete:
+        return True
+    obs = S.prove(
+        name + ".terms_pointwise_equal",
+        S.All(A.n == B.n, S.Forall(tuple(dims) + (A.n,), lambda *a: A.term(*idxA(*a[:-1]), a[-1]) == B.term(*idxB(*a[:-1]), a[-1]))),
+        kind="lemma",
+    )
+    if obs and all(o is not None and o.status == "discharged" for o in obs):
+        S.assume(S.Forall(tuple(dims), lambda *ix: A.total(*idxA(*ix)) == B.total(*idxB(*ix)), name="sum.congruence"))
+        return True
+    return False
